@@ -37,6 +37,8 @@ def scope(tier, seed):
                    'variables (+ one unused variable in every position)',
          'print': 'all 256 functions of 3 variables x 6 orderings: str(o.root) and str(o) re-parsed',
          'synonyms': 'every expression of depth<=2 spelled with and/or/not/True/False',
+         'flat': '%d unparenthesised n-ary chains / mixed-precedence strings over a,b,c,d judged '
+                 'against Python\'s own evaluation of the same string' % len(flat_exprs()),
          'errors': 'every expression with one variable removed from the ordering / lambda list; '
                    '%d non-Boolean inputs' % (len(SYNTAX_ERRORS) + len(SYNTAX_ERRORS_LAMBDA))}
     if tier == 'thorough':
@@ -44,9 +46,72 @@ def scope(tier, seed):
     return d
 
 
+class B(object):
+    """Python-level Boolean with &,|,~ so that Python's own grammar/precedence is the reference."""
+
+    def __init__(self, v):
+        self.v = bool(v)
+
+    def __and__(self, o):
+        return B(self.v and B.of(o).v)
+
+    __rand__ = __and__
+
+    def __or__(self, o):
+        return B(self.v or B.of(o).v)
+
+    __ror__ = __or__
+
+    def __invert__(self):
+        return B(not self.v)
+
+    def __bool__(self):
+        return self.v
+
+    @staticmethod
+    def of(o):
+        return o if isinstance(o, B) else B(o)
+
+
+def py_truth_table(text, args):
+    """Truth table of a flat expression string by Python's own evaluation."""
+    import re
+    # constants 0/1 must behave as Booleans under ~
+    t = re.sub(r'\b([01])\b', r'B(\1)', text)
+    out = []
+    for a in itertools.product((0, 1), repeat=len(args)):
+        env = dict((v, B(x)) for v, x in zip(args, a))
+        env['B'] = B
+        out.append(bool(eval(t, {'__builtins__': {}}, env)))
+    return tuple(out)
+
+
+def flat_exprs():
+    """Unparenthesised n-ary chains and mixed-precedence expressions (n-ary BoolOp, & vs |, not)."""
+    lits = ['a', 'b', 'c', '~a', '~c', 'not b', '0', '1']
+    out = []
+    for n in (3, 4):
+        for combo in itertools.product(lits if n == 3 else ['a', 'b', '~c', 'not a', 'd', '1'], repeat=n):
+            for sep in (' and ', ' or ', ' & ', ' | '):
+                if 'not' in ''.join(combo) and sep in (' & ', ' | '):
+                    continue
+                out.append(sep.join(combo))
+    for x, y, z in itertools.permutations(['a', 'b', 'c', 'not a', '~b'], 3):
+        for s1, s2 in itertools.product([' and ', ' or ', ' & ', ' | '], repeat=2):
+            if ('not' in x + y + z) and ('&' in s1 + s2 or '|' in s1 + s2):
+                continue
+            out.append(x + s1 + y + s2 + z)
+    out += ['not a and b', 'not a or b and c', 'not (a or b) and c', '~a & b | c & ~d', 'a | b & c | d',
+            'a and b and c and d and a', 'a or b or c or d or ~a', 'not not a', '~~a & b',
+            'a and (b or c or d)', '(a and b and c) or (b and c and d)', 'a & b & c & d', 'a | b | c | d']
+    return out
+
+
 def plan(tier, seed):
     n = len(exprs(2, V3))
     sh = [['lam', lo, hi] for lo, hi in chunks(n, 256)]
+    nf = len(flat_exprs())
+    sh += [['flat', lo, hi] for lo, hi in chunks(nf, 256)]
     sh += [['print3', oi] for oi in range(6)]
     sh.append(['errors'])
     if tier == 'thorough':
@@ -113,6 +178,32 @@ def run_shard(shard, tier, seed, acc):
                         acc.violation('missing-variable-accepted',
                                       {'expr': s, 'args': rest, 'form': form}, 'RuntimeError', r[:2])
         acc.sample({'expr': render(exprs(2, V3)[shard[1]]), 'lambda args': 'all permutations (+unused u)'})
+        return
+    if kind == 'flat':
+        args = ['a', 'b', 'c', 'd']
+        ttx = TT(args)
+        for text in flat_exprs()[shard[1]:shard[2]]:
+            want = py_truth_table(text, args)
+            nontriv = 1 if (any(want) and not all(want)) else 0
+            case = {'expr': text, 'args': args, 'flat': True}
+            for form, r in (('expr', call(OBDD, text, list(args))),
+                            ('lambda', call(OBDD, 'lambda a,b,c,d: ' + text))):
+                acc.ev(1, nontriv)
+                if r[0] != 'ok':
+                    acc.violation('flat-exception', dict(case, form=form), None, r[1:])
+                elif ttx.of_node(r[1].root) != want:
+                    acc.violation('flat-wrong-function', dict(case, form=form), [int(x) for x in want],
+                                  [int(x) for x in ttx.of_node(r[1].root)])
+            # a variable missing from the ordering must raise even deep in a chain
+            used = [v for v in args if __import__('re').search(r'\b%s\b' % v, text)]
+            for v in used:
+                rest = [x for x in args if x != v]
+                r = call(OBDD, text, rest)
+                acc.ev(1, 1)
+                if not (r[0] == 'exc' and r[1] == 'RuntimeError'):
+                    acc.violation('missing-variable-accepted', {'expr': text, 'args': rest, 'form': 'expr'},
+                                  'RuntimeError', r[:2])
+        acc.sample({'expr': flat_exprs()[shard[1]], 'reference': "Python's own evaluation of the string"})
         return
     if kind in ('print3', 'print4'):
         V = V3 if kind == 'print3' else V4
@@ -185,6 +276,14 @@ def replay(art):
             r = call(OBDD, 'lambda %s: %s' % (','.join(c['args']), c['expr']))
         return {'violates': not (r[0] == 'exc' and r[1] == 'RuntimeError'), 'got': r[:2]}
     args = c['args']
+    if kind.startswith('flat'):
+        ttx = TT(args)
+        want = py_truth_table(c['expr'], args)
+        r = call(OBDD, c['expr'], list(args)) if c['form'] == 'expr' else \
+            call(OBDD, 'lambda a,b,c,d: ' + c['expr'])
+        bad = r[0] != 'ok' or ttx.of_node(r[1].root) != want
+        return {'violates': bad, 'expected': [int(x) for x in want],
+                'got': r[1:] if r[0] != 'ok' else [int(x) for x in ttx.of_node(r[1].root)]}
     ro = call(OBDD, c['expr'], list(args))
     if kind.startswith('synonym'):
         rl = call(OBDD, c['word'], list(args))
